@@ -472,6 +472,34 @@ theorem inst_never_changes_mprops (T : Tables) (n : Name) (ops : List Op) (w : W
     simp only [run, List.foldl_cons] at h2 ⊢
     rw [h2, hstep.1]
 
+/-- **a module's description is a function of its own class chain and its own configuration only** (accessibles):
+in any admissible program that defines its classes consistently with `env`, creates the instance `n` of class `c` with
+configuration `cfg` at some point and afterwards operates on other owners only, the instance shows `instViews` of what
+`viewsOf env` says about `c` (a function of the class bodies along the MRO of `c`) and of `cfg`. -/
+theorem inst_description_function (T : Tables) (env : Name → Option ClassDecl) (pre post : List Op) (n c : Name)
+    (cfg : List (Name × PropMap)) (hrun : AdmissibleRun T {} (pre ++ Op.inst n c cfg :: post))
+    (hcons : ConsistentRun T env {} pre) (cr : ClassRec) (hc : (run T {} pre).findClass c = some cr)
+    (hpost : ∀ op ∈ post, op.target ≠ .inst n) :
+    ∃ V F, (∀ f, F ≤ f → viewsOf T env f c = some V) ∧
+      describeH (run T {} (pre ++ Op.inst n c cfg :: post)) (.inst n) =
+        (instViews T V.accessibles cfg).map (fun nv => (nv.1, some nv.2)) := by
+  obtain ⟨hpre, hrest⟩ := admissibleRun_append T pre _ {} hrun
+  have hpe : PureInv T env {} := fun m cr h => by simp [World.findClass] at h
+  have hve : VInv T env {} := fun m cr h => by simp [World.findClass] at h
+  obtain ⟨V, hs, F, hF⟩ := vInv_run T env pre {} empty_world_ok.1 empty_world_ok.2 hpre hcons hpe hve c cr hc
+  have hinv := invariants_reachable T pre hpre
+  have hnone : (run T {} pre).findInst n = none := hrest.1
+  have hp := separated_preserved T (run T {} pre) (.inst n c cfg) hrest.1 hinv.1 hinv.2
+  refine ⟨V, F, hF, ?_⟩
+  rw [run_append, run_cons,
+    inst_description_stable T n post _ (invRun_of_admissible T post _ hp.1 hp.2 hrest.2) hpost]
+  show describeH (instantiate T (run T {} pre) n c cfg) (.inst n) = _
+  rw [describe_instantiate T _ n c cfg hnone]
+  have hcls : describeH (run T {} pre) (.cls c) = V.accessibles := by
+    simp only [describeH, World.accessiblesOf, hc]
+    exact hs.accessibles
+  rw [hcls]
+
 /-- what an instance of a class with module properties `props` (value level) configured with `cfg` shows -/
 def instMSpec (props : List (Name × PSlot)) (cfg : List (Name × PropMap)) : List (Name × MView) :=
   (props.map (fun ks => (ks.1, (⟨some ks.2.val, none⟩ : MView)))).map (fun nv =>
@@ -556,6 +584,37 @@ example : ConsistentRun exT exEnv {} exOps := by
     have h' : (run exT {} (exOps.take 5)).findClass "A" = none := h
     rw [h'] at this
     cases this
+
+/-- the same class bodies in another order consistent with inheritance (`C` before `B`), without the instances -/
+def exOpsR : List Op := [.define dA, .define dC, .define dB]
+
+example : AdmissibleRun exT {} exOpsR := by
+  refine ⟨rfl, ?_, ?_, trivial⟩ <;> exact Option.isNone_iff_eq_none.1 (by decide +kernel)
+
+example : ConsistentRun exT exEnv {} exOpsR := by
+  refine ⟨⟨by simp [exEnv, dA], fun m hm => ?_⟩, ⟨by simp [exEnv, dC], fun m hm => ?_⟩,
+    ⟨by simp [exEnv, dB], fun m hm => ?_⟩, trivial⟩
+  · simp [dA] at hm
+  · simp only [dC, List.tail_cons, List.mem_singleton] at hm
+    subst hm
+    intro _ h
+    have : ((step exT {} (.define dA)).findClass "A").isSome = true := by decide +kernel
+    rw [h] at this
+    cases this
+  · simp only [dB, List.tail_cons, List.mem_singleton] at hm
+    subst hm
+    intro _ h
+    have : ((run exT {} (exOpsR.take 2)).findClass "A").isSome = true := by decide +kernel
+    have h' : (run exT {} (exOpsR.take 2)).findClass "A" = none := h
+    rw [h'] at this
+    cases this
+
+/-- what `order_independent` says about the two orders, seen on the concrete heaps (which differ: 11 and 6 objects):
+`B` shows the same properties and datatype properties of `p` -/
+example : (run exT {} exOps).heap.length ≠ (run exT {} exOpsR).heap.length ∧
+    ((describeH (run exT {} exOps) (.cls "B")).map (fun nv => nv.2.map (fun v => (v.props, v.tree.map (·.props))))) =
+    ((describeH (run exT {} exOpsR) (.cls "B")).map (fun nv => nv.2.map (fun v => (v.props, v.tree.map (·.props))))) := by
+  decide +kernel
 
 /-- … and it is not trivial: it builds 3 classes and 2 instances out of 11 heap objects, and the mutation of
 `i1` is visible in `i1` (max 2) while `i2` shows the class value (max 5) -/
